@@ -17,7 +17,7 @@ from ..ast.visitor import DefaultVisitor
 from ..fpc_context import FPCoreContext
 from ..interpret import Interpreter, Value, get_default_interpreter
 from ..interpret.value import to_value, unwrap_foreign
-from ..number import REAL
+from ..number import REAL, Context
 from .define_use import DefineUse, DefineUseAnalysis, Definition, DefSite
 
 
@@ -44,6 +44,30 @@ class PartialEvalInfo:
     def_use: DefineUseAnalysis
 
 
+def _holds_list(val) -> bool:
+    match val:
+        case list():
+            return True
+        case tuple():
+            return any(_holds_list(v) for v in val)
+        case _:
+            return False
+
+
+class _WritesLists(DefaultVisitor):
+    """Does the function store into a list, or call something that could?"""
+
+    found: bool = False
+
+    def _visit_indexed_assign(self, stmt: IndexedAssign, ctx: None):
+        self.found = True
+
+    def _visit_call(self, e: Call, ctx: None):
+        if not (isinstance(e.fn, type) and issubclass(e.fn, Context)):
+            self.found = True
+        super()._visit_call(e, ctx)
+
+
 class _PartialEvalInstance(DefaultVisitor):
     """
     Partial evaluation instance for a function.
@@ -66,6 +90,19 @@ class _PartialEvalInstance(DefaultVisitor):
         self.rt = get_default_interpreter()
         self.by_def = {}
         self.by_expr = {}
+        finder = _WritesLists()
+        finder._visit_function(func, None)
+        self.writes_lists = finder.found
+
+    def _bind(self, d: Definition, val: Value):
+        """Records *val* for *d* -- unless it is (or holds) a list in a function
+        that writes lists: a list is shared, not copied, by `ys = xs`, by
+        reading a row out of it and by a call, so a store through any of those
+        changes what `xs` holds and the value bound here is only its past."""
+        if self.writes_lists and _holds_list(val):
+            self.by_def[d] = _TOP
+        else:
+            self.by_def[d] = val
 
     def apply(self) -> PartialEvalInfo:
         self._visit_function(self.func, None)
@@ -318,7 +355,7 @@ class _PartialEvalInstance(DefaultVisitor):
             case Id():
                 if isinstance(binding, NamedId):
                     d = self.def_use.find_def_from_site(binding, site)
-                    self.by_def[d] = val
+                    self._bind(d, val)
             case TupleBinding():
                 assert isinstance(val, tuple)
                 for elt, v in zip(binding.elts, val):
@@ -429,7 +466,7 @@ class _PartialEvalInstance(DefaultVisitor):
             if str(name) not in func.env:
                 raise KeyError(f'free variable `{name}` missing from env')
             d = self.def_use.find_def_from_site(name, func)
-            self.by_def[d] = to_value(func.env[str(name)])
+            self._bind(d, to_value(func.env[str(name)]))
 
         # visit statements
         self._visit_block(func.body, fctx)
